@@ -113,6 +113,8 @@ def main(argv=None):
                 br.run()
                 bounded_runs.append((c, br))
         for fn in getattr(pack, "structural", []):
+            if getattr(fn, "props", None) and a.prop not in fn.props:
+                continue
             # obligations decided by reading the real AST (class bodies, constant tables)
             from .ctx import ObligationResult
             sr = FunctionRun(pack, Contract_stub(fn.__name__), rlimit=rlimit)
